@@ -175,7 +175,7 @@ def worker(ctx):
                 rec.case(nontrivial_sig=(json.dumps(spec, sort_keys=True), json.dumps(pr, sort_keys=True)) if nontriv else None, sample=sample,
                          fired=m['fired'] > 0, assoc_compared=assoc_checked, attached=any(s.parent is not None for s in m['stream']),
                          rtl_font=spec['dir'] == 1, dir_mismatch=(pr['dir'] & 1) != spec['dir'],
-                         len_changed=len(m['stream']) != len(pr['text']), **cl)
+                         len_changed=len(m['stream']) != len(pr['text']), font_with_pass_bits=bool(spec.get('apassbits')), font_with_linebreak_passes=bool(spec.get('ilb')), **cl)
         return t
 
     ctx.run_hypothesis(make, ctx.n(12000, 240000) // ctx.nworkers + 1, replay_fn=replay_case)
